@@ -152,8 +152,8 @@ func c25Stats(samples []c25Sample) (rate420, avg420 int64, n int) {
 
 type c25Group struct {
 	Rate, Avg int64 // x420
-	State         broker.S3HealthState
-	Example       []c25Sample
+	State     broker.S3HealthState
+	Example   []c25Sample
 }
 
 type c25MonReplay struct {
@@ -283,19 +283,21 @@ func c25MonitorPart(t *testing.T, rep *vh.Report, deadline time.Time) {
 					rep.Sample(map[string]any{"part": "monitor", "thresholds": thr.Name, "history": c25Fmt(h), "rating": st})
 				}
 			}
-			rec = func(start int, cur []int) {
-				run(cur, false)
-				if len(cur) >= 2 && len(cur) <= 4 && cur[0] != cur[len(cur)-1] {
-					run(cur, true)
-				}
-				if len(cur) == maxN {
+			rec = func(start int, cur []int) { // all multisets of exactly cap(cur) samples extending cur
+				if len(cur) == cap(cur) {
+					run(cur, false)
+					if len(cur) >= 2 && len(cur) <= 4 && cur[0] != cur[len(cur)-1] {
+						run(cur, true)
+					}
 					return
 				}
 				for x := start; x < len(types); x++ {
 					rec(x, append(cur, x))
 				}
 			}
-			rec(0, nil)
+			for size := 0; size <= maxN; size++ { // shorter histories first
+				rec(0, make([]int, 0, size))
+			}
 		})
 		rep.Eval(nhist)
 		rep.Count("monitor_histories", nhist)
